@@ -15,8 +15,10 @@ type cacheState struct {
 }
 
 func openDB(p kvdb.DBProducer, c *cacheState, name string) (kvdb.Store, error) {
+	var wasNotDropped bool
 	{ // protected by mutex
 		c.mu.Lock()
+		wasNotDropped = c.notDropped[name]
 		c.notDropped[name] = true
 		if store, ok := c.opened[name]; ok {
 			c.refCounter[name]++
@@ -27,6 +29,12 @@ func openDB(p kvdb.DBProducer, c *cacheState, name string) (kvdb.Store, error) {
 	}
 	store, err := p.OpenDB(name)
 	if err != nil {
+		// a failed open is not an open: it must not re-arm the drop guard
+		c.mu.Lock()
+		if _, ok := c.opened[name]; !ok && !wasNotDropped {
+			delete(c.notDropped, name)
+		}
+		c.mu.Unlock()
 		return nil, err
 	}
 	realClose := store.Close
